@@ -71,9 +71,52 @@ func Load(dir string, deps bool, extraEnv ...string) (*Prog, error) {
 		if pk == nil {
 			continue
 		}
+		if normaliseCmp {
+			normaliseComparisons(pk)
+		}
 		p.indexPkg(pk)
 	}
 	return p, nil
+}
+
+// normaliseCmp: comparisons are brought into one orientation before any rule looks at them, so that
+// `nil != err`, `0 < len(x)` and `limit <= n` are seen as `err != nil`, `len(x) > 0` and `n >= limit`.
+// The rewrite swaps the operand pointers of the type-checked tree in place (types.Info is keyed by
+// node, so it stays valid) and mirrors the operator; it never changes which values are compared.
+var normaliseCmp = true
+
+func normaliseComparisons(pk *packages.Package) {
+	constLike := func(e ast.Expr) bool {
+		tv, ok := pk.TypesInfo.Types[e]
+		return ok && (tv.Value != nil || tv.IsNil())
+	}
+	for _, f := range pk.Syntax {
+		ast.Inspect(f, func(n ast.Node) bool {
+			b, ok := n.(*ast.BinaryExpr)
+			if !ok {
+				return true
+			}
+			var mirrored token.Token
+			switch b.Op {
+			case token.EQL, token.NEQ:
+				mirrored = b.Op
+			case token.LSS:
+				mirrored = token.GTR
+			case token.GTR:
+				mirrored = token.LSS
+			case token.LEQ:
+				mirrored = token.GEQ
+			case token.GEQ:
+				mirrored = token.LEQ
+			default:
+				return true
+			}
+			if constLike(b.X) && !constLike(b.Y) {
+				b.X, b.Y, b.Op = b.Y, b.X, mirrored
+			}
+			return true
+		})
+	}
 }
 
 func (p *Prog) indexPkg(pk *packages.Package) {
